@@ -1,4 +1,6 @@
 import PermutaModel.Lemmas.C01Bridge
+import PermutaModel.Lemmas.C01Colour
+import PermutaModel.Lemmas.C01DequeDetails
 
 /-!
 # C01 — classical pattern occurrences, containment and counts are exact
@@ -139,6 +141,137 @@ theorem search_history_independent (π : NSeq) (hist : List NSeq) (σ : NSeq) :
 /-- non-vacuity: concrete permutations meet the hypotheses and the listing is non-trivial -/
 example : IsPerm [2,0,1] ∧ IsPerm [5,3,0,4,2,1] ∧
     Spec.occurrences [2,0,1] [5,3,0,4,2,1] = [[0,1,3],[0,2,3],[0,2,4],[0,2,5],[1,2,4],[1,2,5]] := by
+  decide
+
+/-! ## coloured occurrences (`occurrences_in(patt, self_colours, patt_colours)`) -/
+
+/-- **Coloured listing = uncoloured listing filtered by colour match**: for *all* sequences and
+    colour lists (no hypothesis needed) the coloured search returns, in the same order, exactly
+    those tuples of the uncoloured search with `cσ[c[k]] = cπ[k]` for every slot `k`.
+    (Colour lists are read with `getD`; under the length hypotheses of
+    `mem_occurrencesInC_iff` every read is in range, as in the Python code, which would raise
+    `IndexError` on a too short colour list.) -/
+theorem occurrencesInC_eq_filter (π σ : NSeq) (cπ cσ : List Nat) :
+    Model.occurrencesInC π σ cπ cσ =
+      (Model.occurrencesIn π σ).filter (Spec.colourMatch π.length cπ cσ) := by
+  unfold Model.occurrencesInC Model.occurrencesIn
+  by_cases h0 : π.length = 0
+  · simp [h0, Spec.colourMatch]
+  · by_cases h1 : π.length > σ.length
+    · simp [h0, h1]
+    · simp only [h0, h1, if_false]
+      rw [goC_eq_filter σ (patternDetails π) π.length cπ cσ 0 0 [] rfl (by omega)]
+      apply List.filter_congr
+      intro c _
+      exact colFrom_zero _ _ _ _
+
+/-- for permutations the coloured listing is the specification list (all strictly increasing
+    index tuples in lexicographic order, filtered by order-isomorphism) filtered by colour match -/
+theorem occurrencesInC_eq_spec (π σ : NSeq) (cπ cσ : List Nat) (hπ : IsPerm π) (hσ : IsPerm σ) :
+    Model.occurrencesInC π σ cπ cσ = Spec.occurrencesC π σ cπ cσ := by
+  rw [occurrencesInC_eq_filter, occurrencesIn_eq_spec π σ hπ hσ]; rfl
+
+/-- property wording: with colourings supplied (one colour per entry), the reported tuples are
+    exactly the occurrences whose colours match; every colour read is within the lists -/
+theorem mem_occurrencesInC_iff (π σ : NSeq) (cπ cσ : List Nat) (hπ : IsPerm π) (hσ : IsPerm σ)
+    (hcπ : cπ.length = π.length) (hcσ : cσ.length = σ.length) (c : List Nat) :
+    c ∈ Model.occurrencesInC π σ cπ cσ ↔
+      IsOcc π σ c ∧ ∀ k < π.length, ∃ i col, c[k]? = some i ∧ cσ[i]? = some col ∧ cπ[k]? = some col := by
+  rw [occurrencesInC_eq_filter, List.mem_filter, mem_occurrencesIn_iff π σ hπ hσ]
+  apply and_congr_right
+  intro hocc
+  simp only [Spec.colourMatch, List.all_eq_true, List.mem_range, beq_iff_eq]
+  constructor
+  · intro h k hk
+    have hkc : k < c.length := by rw [hocc.len]; exact hk
+    have hi : c[k] < cσ.length := by rw [hcσ]; exact hocc.rng _ (List.getElem_mem hkc)
+    refine ⟨c[k], cσ[c[k]], List.getElem?_eq_getElem hkc, List.getElem?_eq_getElem hi, ?_⟩
+    have := h k hk
+    rw [List.getD_eq_getElem?_getD, List.getD_eq_getElem?_getD, List.getD_eq_getElem?_getD,
+      List.getElem?_eq_getElem hkc, Option.getD_some, List.getElem?_eq_getElem hi,
+      List.getElem?_eq_getElem (by omega : k < cπ.length)] at this
+    simp only [Option.getD_some] at this
+    rw [List.getElem?_eq_getElem (by omega : k < cπ.length), this]
+  · intro h k hk
+    obtain ⟨i, col, h1, h2, h3⟩ := h k hk
+    simp [List.getD_eq_getElem?_getD, h1, h2, h3]
+
+/-- the coloured listing is a sub-listing (order preserved) of the uncoloured one -/
+theorem occurrencesInC_sublist (π σ : NSeq) (cπ cσ : List Nat) :
+    (Model.occurrencesInC π σ cπ cσ).Sublist (Model.occurrencesIn π σ) := by
+  rw [occurrencesInC_eq_filter]; exact List.filter_sublist
+
+/-- each matching occurrence is reported once -/
+theorem occurrencesInC_nodup (π σ : NSeq) (cπ cσ : List Nat) (hπ : IsPerm π) (hσ : IsPerm σ) :
+    (Model.occurrencesInC π σ cπ cσ).Nodup :=
+  (occurrencesIn_nodup π σ hπ hσ).sublist (occurrencesInC_sublist π σ cπ cσ)
+
+/-- matching occurrences are reported in lexicographic order -/
+theorem occurrencesInC_lex_sorted (π σ : NSeq) (cπ cσ : List Nat) (hπ : IsPerm π) (hσ : IsPerm σ) :
+    (Model.occurrencesInC π σ cπ cσ).Pairwise (fun a b => lexLt a b = true) :=
+  (occurrencesIn_lex_sorted π σ hπ hσ).sublist (occurrencesInC_sublist π σ cπ cσ)
+
+/-- the empty pattern occurs exactly once, whatever the colourings -/
+theorem empty_pattern_once_coloured (σ : NSeq) (cπ cσ : List Nat) :
+    Model.occurrencesInC [] σ cπ cσ = [[]] := by
+  simp [Model.occurrencesInC]
+
+/-- non-vacuity: colours remove one of the three occurrences -/
+example : IsPerm [0,1] ∧ IsPerm [0,1,2] ∧
+    Spec.occurrences [0,1] [0,1,2] = [[0,1],[0,2],[1,2]] ∧
+    Spec.occurrencesC [0,1] [0,1,2] [0,1] [0,0,1] = [[0,2],[1,2]] := by decide
+
+/-! ## the rotating-deque algorithm `Perm.left_floor_and_ceiling` behind the search table
+
+`Model.lfcDeque` (Model/C01Deque.lean) mirrors perm.py:2657-2690 literally: a deque of
+`(val, idx)` pairs, `rotate(-1)` / `rotate(1)` / `appendleft` / `append`, the three `while` loops
+and the four branches.  A `while` loop is run for at most `len(deq)` rotations and `none` stands
+for "the loop does not terminate". -/
+
+/-- the rotation bound is exact (`rotate(-1)` loops): the model answers `none` iff the loop
+    condition holds after every number of rotations, i.e. iff the Python loop spins forever -/
+theorem rotWhileL_none_iff_diverges (c : Dq → Bool) (d : Dq) :
+    rotWhile c rotL d.length d = none ↔ ∀ k, c (rotL^[k] d) = true :=
+  _root_.rotWhileL_eq_none_iff c d
+
+/-- the rotation bound is exact (`rotate(1)` loop) -/
+theorem rotWhileR_none_iff_diverges (c : Dq → Bool) (d : Dq) :
+    rotWhile c rotR d.length d = none ↔ ∀ k, c (rotR^[k] d) = true :=
+  _root_.rotWhileR_eq_none_iff c d
+
+/-- **termination**: all three `while` loops of `left_floor_and_ceiling` terminate on *every*
+    input sequence (permutation or not) -/
+theorem lfcDeque_terminates (π : NSeq) : (Model.lfcDeque π).isSome :=
+  _root_.lfcDeque_total π
+
+/-- **the deque algorithm computes the left floors and ceilings**: for every sequence without
+    repeated entries (in particular every permutation) the pairs yielded by the code are the
+    specification-level `(floor index, ceiling index)` pairs (`-1` for "none") -/
+theorem lfcDeque_eq_lfcOut (π : NSeq) (h : π.Nodup) : Model.lfcDeque π = some (Model.lfcOut π) :=
+  lfcDeque_eq_lfcOut_of_nodup π h
+
+/-- what `lfcOut` means: entry `k` holds the position `j < k` with the largest `π[j] < π[k]`
+    and the position `j < k` with the smallest `π[j] > π[k]` (`none` when there is no such `j`) -/
+theorem lfcOut_meaning (π : NSeq) (k : Nat) :
+    FloorSpec π k k (leftFloor π k) ∧ CeilSpec' π k k (leftCeil π k) :=
+  ⟨leftFloor_spec π k, leftCeil_spec' π k⟩
+
+/-- `Perm._pattern_details` computed the way the code does (zip with the deque generator) is
+    the search table `patternDetails` the main theorem is about -/
+theorem patternDetailsDeque_eq (π : NSeq) (h : π.Nodup) :
+    Model.patternDetailsDeque π = some (Model.patternDetails π) :=
+  patternDetailsDeque_eq_of_nodup π h
+
+/-- **main theorem for the code-shaped pipeline**: deque generator → `_pattern_details` →
+    search; for all permutations it returns exactly the specification list -/
+theorem occurrencesInDeque_eq_spec (π σ : NSeq) (hπ : IsPerm π) (hσ : IsPerm σ) :
+    Model.occurrencesInDeque π σ = some (Spec.occurrences π σ) := by
+  rw [occurrencesInDeque_eq_of_nodup π σ hπ.1, occurrencesIn_eq_spec π σ hπ hσ]
+
+/-- non-vacuity: the docstring example of `left_floor_and_ceiling` -/
+example : IsPerm [2,5,0,3,6,4,7,1] ∧
+    Model.lfcDeque [2,5,0,3,6,4,7,1] =
+      some [(-1,-1),(0,-1),(-1,0),(0,1),(1,-1),(3,1),(4,-1),(2,0)] := by
   decide
 
 end C01
